@@ -165,6 +165,7 @@ pub fn run_shard<C: Check>(tier: Tier, seed: u64, shard: u32, nshards: u32, curr
         }
         heartbeat();
         let verdict = C::run(&case, &ctx);
+        ctx.scratch.sweep();
         let counting = !*failed.borrow();
         match verdict {
             Ok(info) => {
